@@ -66,7 +66,7 @@ def grid_dmrg():
 
 
 @scenario('C06', 'dmrg.frame', ['torchtt._dmrg.dmrg_matvec_python', 'torchtt._dmrg.dmrg_hadamard_python', 'torchtt._tt_base.TT.fast_matvec'],
-          quick=[g for g in grid_dmrg() if g['nswp'] == 1], thorough=grid_dmrg() + [dict(which='fast_matvec', d=3, nswp=1, guess=True)],
+          quick=grid_dmrg(), thorough=grid_dmrg() + [dict(which=w, d=3, nswp=1, guess=g) for w in ('fast_matvec', 'dmrg_hadamard') for g in (True, False)],
           replay='dmrg_frame', max_paths=4000)
 def dmrg_frame(ob, which, d, nswp, guess):
     """fast_matvec / dmrg_hadamard leave A, x and the user supplied initial guess untouched (cores, core list, ranks)"""
